@@ -783,8 +783,24 @@ func c18cryption(c *Ctx) {
 				}
 			}
 		}
+		// … and no body-writing capability is inherited around the buffer: Write, ReadFrom (what io.Copy and
+		// http.ServeContent use when the writer offers it) and WriteString, if present in the method set, are the type's own
+		if pk := c.P.Pkg("rest/handler"); pk != nil {
+			if tn, ok := pk.Types.Scope().Lookup("cryptionResponseWriter").(*types.TypeName); ok {
+				ms := types.NewMethodSet(types.NewPointer(tn.Type()))
+				for _, name := range []string{"Write", "ReadFrom", "WriteString"} {
+					sel := ms.Lookup(pk.Types, name)
+					if sel == nil {
+						continue
+					}
+					if len(sel.Index()) > 1 {
+						bad = append(bad, fmt.Sprintf("%s is promoted from an embedded writer: payloads written through it (io.Copy, http.ServeContent use ReadFrom) go to the client in clear, past the encrypting buffer", name))
+					}
+				}
+			}
+		}
 		sort.Strings(bad)
-		c.R.Check(len(bad) == 0 && n >= 5, rule, "rest/handler.cryptionResponseWriter#one-ciphertext", "body bytes reach the client only from the deferred flush, as one base64(ECB) unit (no method streams encrypted pieces earlier)", "-", fmt.Sprintf("%d methods; %v", n, bad), bad, n)
+		c.R.Check(len(bad) == 0 && n >= 3, rule, "rest/handler.cryptionResponseWriter#one-ciphertext", "body bytes reach the client only from the deferred flush, as one base64(ECB) unit (no method streams encrypted pieces earlier)", "-", fmt.Sprintf("%d methods; %v", n, bad), bad, n)
 	}
 	c.R.Min(rule, 5, "LimitCryptionHandler closure, Write (2), flush, one-ciphertext")
 }
